@@ -76,17 +76,17 @@ Definition seqv (a b : rstate) : Prop :=
   r_form a = r_form b /\ r_query a = r_query b /\ r_body a = r_body b /\
   r_getbody a = r_getbody b /\ r_reader a = r_reader b /\ r_unreplayable a = r_unreplayable b /\
   r_attempt a = r_attempt b /\ r_path a = r_path b /\ r_pparams a = r_pparams b /\
-  r_ordered a = r_ordered b /\ heq (r_headers a) (r_headers b).
+  r_ordered a = r_ordered b /\ r_marshal a = r_marshal b /\ heq (r_headers a) (r_headers b).
 
 Lemma seqv_refl a : seqv a a.
 Proof. unfold seqv. repeat split; apply heq_refl. Qed.
 Lemma seqv_sym a b : seqv a b -> seqv b a.
 Proof.
-  unfold seqv. intros (?&?&?&?&?&?&?&?&?&?&?&?&?&H). repeat (split; [congruence|]). apply heq_sym, H.
+  unfold seqv. intros (?&?&?&?&?&?&?&?&?&?&?&?&?&?&H). repeat (split; [congruence|]). apply heq_sym, H.
 Qed.
 Lemma seqv_trans a b c : seqv a b -> seqv b c -> seqv a c.
 Proof.
-  unfold seqv. intros (?&?&?&?&?&?&?&?&?&?&?&?&?&Hx) (?&?&?&?&?&?&?&?&?&?&?&?&?&Hy).
+  unfold seqv. intros (?&?&?&?&?&?&?&?&?&?&?&?&?&?&Hx) (?&?&?&?&?&?&?&?&?&?&?&?&?&?&Hy).
   repeat (split; [congruence|]). eapply heq_trans; eassumption.
 Qed.
 
@@ -94,7 +94,7 @@ Lemma seqv_wire c a b : seqv a b -> wire_same (wire_of c a) (wire_of c b).
 Proof.
   unfold seqv, wire_same, wire_of, wire_query, wire_path, body_now.
   cbn [w_method w_path w_query w_cookies w_body w_headers].
-  intros (Hm & Hq & Hc & Hf & Hqq & Hb & Hg & Hr & Hu & Ha & Hpa & Hpp & Hod & Hh).
+  intros (Hm & Hq & Hc & Hf & Hqq & Hb & Hg & Hr & Hu & Ha & Hpa & Hpp & Hod & Hms & Hh).
   rewrite Hm, Hq, Hc, Hqq, Hg, Hr, Hpa, Hpp. repeat split. exact Hh.
 Qed.
 
@@ -110,8 +110,8 @@ Qed.
 
 Ltac simp_r :=
   cbn [r_method r_rawquery r_headers r_cookies r_form r_query r_body r_getbody r_reader r_unreplayable r_attempt
-       r_path r_pparams r_ordered
-       set_headers set_cookies set_form set_body set_reader set_attempt].
+       r_path r_pparams r_ordered r_marshal
+       set_headers set_cookies set_form set_body set_reader set_attempt set_marshal].
 
 Ltac solve_seqv :=
   unfold seqv; simp_r;
@@ -130,27 +130,46 @@ Proof.
   apply bytes_eqb_eq in E. subst k0. symmetry. exact H.
 Qed.
 
+Lemma json_ct_nonempty : nonempty json_content_type = true.
+Proof. reflexivity. Qed.
+Lemma json_ct_not_xml : is_xml_type json_content_type = false.
+Proof. vm_compute. reflexivity. Qed.
+
 Section Prepare.
 Variable detect : bytes -> bytes.
 Variable c : client.
 
 Lemma prep_header_seqv a b : seqv a b -> seqv (prep_header c a) (prep_header c b).
 Proof.
-  intros H. pose proof H as (Hm & Hq & Hc & Hf & Hqq & Hb & Hg & Hr & Hu & Ha & Hpa & Hpp & Hod & Hh).
+  intros H. pose proof H as (Hm & Hq & Hc & Hf & Hqq & Hb & Hg & Hr & Hu & Ha & Hpa & Hpp & Hod & Hms & Hh).
   unfold prep_header. solve_seqv.
 Qed.
 
 Lemma prep_cookie_seqv a b : seqv a b -> seqv (prep_cookie c a) (prep_cookie c b).
 Proof.
-  intros H. pose proof H as (Hm & Hq & Hc & Hf & Hqq & Hb & Hg & Hr & Hu & Ha & Hpa & Hpp & Hod & Hh).
+  intros H. pose proof H as (Hm & Hq & Hc & Hf & Hqq & Hb & Hg & Hr & Hu & Ha & Hpa & Hpp & Hod & Hms & Hh).
   unfold prep_cookie. rewrite Ha.
   destruct (nonempty (c_cookies c) && (r_attempt b <=? 0)%Z); [|exact H].
   rewrite Hc. solve_seqv.
 Qed.
 
+Lemma marshal_ct_seqv a b : seqv a b -> marshal_ct c a = marshal_ct c b.
+Proof.
+  intros H. destruct H as (_&_&_&_&_&_&_&_&_&_&_&_&_&_&Hh). unfold marshal_ct.
+  rewrite (hfirst_heq content_type _ _ Hh). reflexivity.
+Qed.
+
+Lemma marshal_stage_seqv a b : seqv a b -> seqv (marshal_stage c a) (marshal_stage c b).
+Proof.
+  intros H. pose proof H as (Hm & Hq & Hc & Hf & Hqq & Hb & Hg & Hr & Hu & Ha & Hpa & Hpp & Hod & Hms & Hh).
+  unfold marshal_stage. rewrite Hms, (marshal_ct_seqv a b H).
+  destruct (r_marshal b) as [m|] eqn:Emb; [|exact H].
+  destruct (nonempty (marshal_ct c b)); [destruct (is_xml_type (marshal_ct c b))|]; solve_seqv.
+Qed.
+
 Lemma detect_stage_seqv a b : seqv a b -> seqv (detect_stage detect c a) (detect_stage detect c b).
 Proof.
-  intros H. pose proof H as (Hm & Hq & Hc & Hf & Hqq & Hb & Hg & Hr & Hu & Ha & Hpa & Hpp & Hod & Hh).
+  intros H. pose proof H as (Hm & Hq & Hc & Hf & Hqq & Hb & Hg & Hr & Hu & Ha & Hpa & Hpp & Hod & Hms & Hh).
   unfold detect_stage. rewrite Hb. destruct (r_body b) eqn:Ebb; [|exact H].
   destruct (nonempty (hfirst content_type (c_headers c))); [exact H|].
   rewrite (hfirst_heq content_type _ _ Hh).
@@ -161,7 +180,7 @@ Lemma merge_form_seqv a b : seqv a b ->
   seqv (if nonempty (c_form c) && (r_attempt a <=? 0)%Z then set_form a (add_values (c_form c) (r_form a)) else a)
        (if nonempty (c_form c) && (r_attempt b <=? 0)%Z then set_form b (add_values (c_form c) (r_form b)) else b).
 Proof.
-  intros H. pose proof H as (Hm & Hq & Hc & Hf & Hqq & Hb & Hg & Hr & Hu & Ha & Hpa & Hpp & Hod & Hh).
+  intros H. pose proof H as (Hm & Hq & Hc & Hf & Hqq & Hb & Hg & Hr & Hu & Ha & Hpa & Hpp & Hod & Hms & Hh).
   rewrite Ha, Hf. destruct (nonempty (c_form c) && (r_attempt b <=? 0)%Z); [solve_seqv|exact H].
 Qed.
 
@@ -170,16 +189,16 @@ Proof.
   intros H. pose proof H as (Hm & _).
   unfold prep_body, prep_body_gen. rewrite Hm. cbn [orb].
   destruct (payload_forbid c (r_method b)).
-  { pose proof H as (_ & Hq & Hc & Hf & Hqq & Hb & Hg & Hr & Hu & Ha & Hpa & Hpp & Hod & Hh). solve_seqv. }
+  { pose proof H as (_ & Hq & Hc & Hf & Hqq & Hb & Hg & Hr & Hu & Ha & Hpa & Hpp & Hod & Hms & Hh). solve_seqv. }
   pose proof (merge_form_seqv a b H) as H1. cbv zeta.
   set (a1 := if nonempty (c_form c) && (r_attempt a <=? 0)%Z then _ else a) in *.
   set (b1 := if nonempty (c_form c) && (r_attempt b <=? 0)%Z then _ else b) in *.
   clearbody a1 b1.
-  pose proof H1 as (Hm1 & Hq & Hc & Hf & Hqq & Hb & Hg & Hr & Hu & Ha & Hpa & Hpp & Hod & Hh).
+  pose proof H1 as (Hm1 & Hq & Hc & Hf & Hqq & Hb & Hg & Hr & Hu & Ha & Hpa & Hpp & Hod & Hms & Hh).
   rewrite Hod, Hf.
   destruct (nonempty (r_ordered b1)); [solve_seqv|].
   destruct (nonempty (r_form b1)); [solve_seqv|].
-  apply detect_stage_seqv, H1.
+  apply detect_stage_seqv, marshal_stage_seqv, H1.
 Qed.
 
 Lemma prepare_seqv a b : seqv a b -> seqv (prepare detect c a) (prepare detect c b).
@@ -188,6 +207,12 @@ Proof. intros H. unfold prepare. apply prep_body_seqv, prep_cookie_seqv, prep_he
 (* the fields no stage of the middleware pass touches *)
 Definition frame (s : rstate) :=
   (r_method s, r_rawquery s, r_query s, r_reader s, r_unreplayable s, r_attempt s, r_path s, r_pparams s).
+
+Lemma frame_marshal_stage s : frame (marshal_stage c s) = frame s.
+Proof.
+  unfold marshal_stage. destruct (r_marshal s); [|reflexivity].
+  destruct (nonempty (marshal_ct c s)); [destruct (is_xml_type (marshal_ct c s))|]; reflexivity.
+Qed.
 
 Lemma frame_detect_stage s : frame (detect_stage detect c s) = frame s.
 Proof.
@@ -204,7 +229,7 @@ Proof.
   assert (H1 : frame s1 = frame s) by (unfold s1; destruct (nonempty (c_form c) && _); reflexivity).
   destruct (nonempty (r_ordered s1)); [exact H1|].
   destruct (nonempty (r_form s1)); [exact H1|].
-  rewrite frame_detect_stage. exact H1.
+  rewrite frame_detect_stage, frame_marshal_stage. exact H1.
 Qed.
 
 Lemma frame_prepare s : frame (prepare detect c s) = frame s.
@@ -227,6 +252,12 @@ Lemma prepare_url_fields s :
   r_path (prepare detect c s) = r_path s /\ r_pparams (prepare detect c s) = r_pparams s.
 Proof. pose proof (frame_prepare s) as H. unfold frame in H. repeat split; congruence. Qed.
 
+Lemma marshal_stage_not_reader s : r_getbody s <> GBReader -> r_getbody (marshal_stage c s) <> GBReader.
+Proof.
+  unfold marshal_stage. destruct (r_marshal s); [|auto].
+  destruct (nonempty (marshal_ct c s)); [destruct (is_xml_type (marshal_ct c s))|]; simp_r; discriminate.
+Qed.
+
 Lemma detect_stage_getbody s : r_getbody (detect_stage detect c s) = r_getbody s.
 Proof.
   unfold detect_stage. destruct (r_body s); [|reflexivity].
@@ -246,7 +277,7 @@ Proof.
   assert (H1 : r_getbody s1 <> GBReader) by (unfold s1; destruct (nonempty (c_form c) && _); simp_r; exact HX).
   destruct (nonempty (r_ordered s1)); [simp_r; discriminate|].
   destruct (nonempty (r_form s1)); [simp_r; discriminate|].
-  rewrite detect_stage_getbody. exact H1.
+  rewrite detect_stage_getbody. apply marshal_stage_not_reader, H1.
 Qed.
 
 Lemma merge_hset_idem ch k0 x h :
@@ -263,6 +294,15 @@ Lemma hset_hset_heq k v m : heq (hset k v (hset k v m)) (hset k v m).
 Proof. intro k0. rewrite !hget_hset. destruct (bytes_eqb k0 k); reflexivity. Qed.
 
 (* the header map a pass of the body stage leaves: unchanged, or with Content-Type set *)
+Lemma marshal_stage_headers s :
+  r_headers (marshal_stage c s) = r_headers s \/
+  r_headers (marshal_stage c s) = hset content_type [json_content_type] (r_headers s).
+Proof.
+  unfold marshal_stage. destruct (r_marshal s); [|left; reflexivity].
+  destruct (nonempty (marshal_ct c s)); [destruct (is_xml_type (marshal_ct c s)); left; reflexivity|].
+  right. reflexivity.
+Qed.
+
 Lemma detect_stage_headers t :
   r_headers (detect_stage detect c t) = r_headers t \/
   (nonempty (hfirst content_type (r_headers t)) = false /\
@@ -284,9 +324,12 @@ Proof.
   assert (H1 : r_headers s1 = r_headers X) by (unfold s1; destruct (nonempty (c_form c) && _); reflexivity).
   destruct (nonempty (r_ordered s1)); [right; eexists; simp_r; rewrite H1; reflexivity|].
   destruct (nonempty (r_form s1)); [right; eexists; simp_r; rewrite H1; reflexivity|].
-  destruct (detect_stage_headers s1) as [E|(En & x & E)]; rewrite E.
-  - left. exact H1.
-  - right. exists x. rewrite H1. reflexivity.
+  destruct (detect_stage_headers (marshal_stage c s1)) as [E|(En & x & E)]; rewrite E;
+  destruct (marshal_stage_headers s1) as [E2|E2].
+  - left. rewrite E2. exact H1.
+  - right. eexists. rewrite E2, H1. reflexivity.
+  - right. exists x. rewrite E2, H1. reflexivity.
+  - rewrite E2, hfirst_hset_same in En. discriminate En.
 Qed.
 
 (* the header map the first pass leaves: the merged map, possibly with Content-Type set *)
@@ -304,9 +347,122 @@ Qed.
 
 (* ---------- the body stage reproduces its own output ---------- *)
 
+(* the stages after the form handling do not read the attempt counter *)
+Lemma marshal_stage_set_attempt s b : marshal_stage c (set_attempt s b) = set_attempt (marshal_stage c s) b.
+Proof.
+  unfold marshal_stage. change (marshal_ct c (set_attempt s b)) with (marshal_ct c s). simp_r.
+  destruct (r_marshal s); [|reflexivity].
+  destruct (nonempty (marshal_ct c s)); [destruct (is_xml_type (marshal_ct c s))|]; reflexivity.
+Qed.
+
+Lemma detect_stage_set_attempt s b :
+  detect_stage detect c (set_attempt s b) = set_attempt (detect_stage detect c s) b.
+Proof.
+  unfold detect_stage. simp_r. destruct (r_body s); [|reflexivity].
+  destruct (nonempty (hfirst content_type (c_headers c))); [reflexivity|].
+  destruct (nonempty (hfirst content_type (r_headers s))); reflexivity.
+Qed.
+
+Lemma seqv_set_attempt0 a b z : seqv a b -> seqv (set_attempt a z) (set_attempt b z).
+Proof.
+  unfold seqv. intros (?&?&?&?&?&?&?&?&?&?&?&?&?&?&H). simp_r.
+  repeat (split; [first [assumption|reflexivity]|]). exact H.
+Qed.
+
+Lemma detect_stage_noop t :
+  r_body t = None \/ nonempty (hfirst content_type (c_headers c)) = true \/
+  nonempty (hfirst content_type (r_headers t)) = true ->
+  detect_stage detect c t = t.
+Proof.
+  unfold detect_stage. intros [H|[H|H]].
+  - rewrite H. reflexivity.
+  - destruct (r_body t); [|reflexivity]. rewrite H. reflexivity.
+  - destruct (r_body t); [|reflexivity].
+    destruct (nonempty (hfirst content_type (c_headers c))); [reflexivity|]. rewrite H. reflexivity.
+Qed.
+
+Lemma detect_stage_idem s : seqv (detect_stage detect c (detect_stage detect c s)) (detect_stage detect c s).
+Proof.
+  destruct (r_body s) as [bd|] eqn:Eb.
+  2:{ rewrite (detect_stage_noop s) by (left; exact Eb).
+      rewrite (detect_stage_noop s) by (left; exact Eb). apply seqv_refl. }
+  destruct (nonempty (hfirst content_type (c_headers c))) eqn:E1.
+  { rewrite (detect_stage_noop s) by (right; left; exact E1).
+    rewrite (detect_stage_noop s) by (right; left; exact E1). apply seqv_refl. }
+  destruct (nonempty (hfirst content_type (r_headers s))) eqn:E2.
+  { rewrite (detect_stage_noop s) by (right; right; exact E2).
+    rewrite (detect_stage_noop s) by (right; right; exact E2). apply seqv_refl. }
+  assert (Hd : detect_stage detect c s = set_headers s (hset content_type [detect bd] (r_headers s)))
+    by (unfold detect_stage; rewrite Eb, E1, E2; reflexivity).
+  rewrite Hd. unfold detect_stage. simp_r. rewrite Eb, E1, hfirst_hset_same.
+  destruct (nonempty (detect bd)); [apply seqv_refl|].
+  unfold seqv. simp_r. repeat (split; [reflexivity|]). apply hset_hset_heq.
+Qed.
+
+(* marshal + detection applied to their own output change nothing *)
+Lemma tail_idem s :
+  seqv (detect_stage detect c (marshal_stage c (detect_stage detect c (marshal_stage c s))))
+       (detect_stage detect c (marshal_stage c s)).
+Proof.
+  destruct (r_marshal s) as [m|] eqn:Em.
+  2:{ (* no marshal body *)
+      assert (E0 : marshal_stage c s = s) by (unfold marshal_stage; rewrite Em; reflexivity).
+      rewrite E0.
+      assert (Em2 : r_marshal (detect_stage detect c s) = None).
+      { unfold detect_stage. destruct (r_body s); [|exact Em].
+        destruct (nonempty (hfirst content_type (c_headers c))); [exact Em|].
+        destruct (nonempty (hfirst content_type (r_headers s))); simp_r; exact Em. }
+      assert (E1 : marshal_stage c (detect_stage detect c s) = detect_stage detect c s)
+        by (unfold marshal_stage; rewrite Em2; reflexivity).
+      rewrite E1. apply detect_stage_idem. }
+  destruct (nonempty (marshal_ct c s)) eqn:Ect.
+  - (* a content type at request or client level: the body by type, headers untouched *)
+    set (v := if is_xml_type (marshal_ct c s) then snd m else fst m).
+    assert (Et : marshal_stage c s = set_body s (Some v) (GBStatic v)).
+    { unfold marshal_stage, v. rewrite Em, Ect. destruct (is_xml_type (marshal_ct c s)); reflexivity. }
+    rewrite Et. set (t := set_body s (Some v) (GBStatic v)).
+    assert (Hct : marshal_ct c t = marshal_ct c s) by reflexivity.
+    assert (Hno : nonempty (hfirst content_type (c_headers c)) = true \/
+                  nonempty (hfirst content_type (r_headers t)) = true).
+    { unfold marshal_ct in Ect. unfold t. simp_r.
+      destruct (nonempty (hfirst content_type (r_headers s))) eqn:E; [right; reflexivity|left; exact Ect]. }
+    assert (Hd : detect_stage detect c t = t) by (apply detect_stage_noop; right; exact Hno).
+    rewrite Hd.
+    assert (Et2 : marshal_stage c t = set_body t (Some v) (GBStatic v)).
+    { unfold marshal_stage. replace (r_marshal t) with (Some m) by (unfold t; simp_r; symmetry; exact Em).
+      rewrite Hct, Ect. unfold v. destruct (is_xml_type (marshal_ct c s)); reflexivity. }
+    rewrite Et2.
+    rewrite detect_stage_noop by (right; simp_r; exact Hno).
+    unfold seqv, t. simp_r. repeat (split; [reflexivity|]). apply heq_refl.
+  - (* none: JSON, with its content type set *)
+    assert (Hreq : nonempty (hfirst content_type (r_headers s)) = false /\
+                   nonempty (hfirst content_type (c_headers c)) = false).
+    { unfold marshal_ct in Ect. destruct (nonempty (hfirst content_type (r_headers s))) eqn:E.
+      - rewrite E in Ect. discriminate Ect.
+      - split; [reflexivity|exact Ect]. }
+    destruct Hreq as [Hr Hc].
+    set (t := set_body (set_headers s (hset content_type [json_content_type] (r_headers s)))
+                       (Some (fst m)) (GBStatic (fst m))).
+    assert (Et : marshal_stage c s = t) by (unfold marshal_stage; rewrite Em, Ect; reflexivity).
+    rewrite Et.
+    assert (Hh : hfirst content_type (r_headers t) = json_content_type)
+      by (unfold t; simp_r; apply hfirst_hset_same).
+    assert (Hd : detect_stage detect c t = t).
+    { apply detect_stage_noop. right; right. rewrite Hh. apply json_ct_nonempty. }
+    rewrite Hd.
+    assert (Hct : marshal_ct c t = json_content_type).
+    { unfold marshal_ct. rewrite Hh, json_ct_nonempty. reflexivity. }
+    assert (Et2 : marshal_stage c t = set_body t (Some (fst m)) (GBStatic (fst m))).
+    { unfold marshal_stage. replace (r_marshal t) with (Some m) by (unfold t; simp_r; symmetry; exact Em).
+      rewrite Hct, json_ct_nonempty, json_ct_not_xml. reflexivity. }
+    rewrite Et2.
+    rewrite detect_stage_noop by (right; right; simp_r; rewrite Hh; apply json_ct_nonempty).
+    unfold seqv, t. simp_r. repeat (split; [reflexivity|]). apply heq_refl.
+Qed.
+
 (* what the body stage establishes about its own output *)
 Definition body_settled (Y : rstate) : Prop :=
-  if payload_forbid c (r_method Y) then r_body Y = None /\ r_getbody Y = GBNil
+  if payload_forbid c (r_method Y) then r_body Y = None /\ r_getbody Y = GBNil /\ r_marshal Y = None
   else if nonempty (r_ordered Y) then
     r_body Y = Some (ordered_encode (r_ordered Y) (r_form Y)) /\
     r_getbody Y = GBStatic (ordered_encode (r_ordered Y) (r_form Y)) /\
@@ -314,51 +470,53 @@ Definition body_settled (Y : rstate) : Prop :=
   else if nonempty (r_form Y) then
     r_body Y = Some (encode_values (r_form Y)) /\ r_getbody Y = GBStatic (encode_values (r_form Y)) /\
     hget content_type (r_headers Y) = [form_content_type]
-  else match r_body Y with
-       | None => True
-       | Some bd => nonempty (hfirst content_type (c_headers c)) = true \/
-                    nonempty (hfirst content_type (r_headers Y)) = true \/
-                    hget content_type (r_headers Y) = [detect bd]
-       end.
+  else seqv (detect_stage detect c (marshal_stage c Y)) Y.
+
+(* fields the two tail stages leave alone *)
+Definition frame2 (s : rstate) := (r_method s, r_form s, r_ordered s).
+Lemma frame2_tail s : frame2 (detect_stage detect c (marshal_stage c s)) = frame2 s.
+Proof.
+  unfold detect_stage, marshal_stage.
+  destruct (r_marshal s); [destruct (nonempty (marshal_ct c s)); [destruct (is_xml_type (marshal_ct c s))|]|];
+  simp_r;
+  repeat match goal with |- context [match ?b with Some _ => _ | None => _ end] => destruct b end;
+  repeat match goal with |- context [if ?b then _ else _] => destruct b end; reflexivity.
+Qed.
 
 Lemma prep_body_settles X : body_settled (prep_body detect c X).
 Proof.
-  destruct X as [m rq h ck f q bd gb rd un at_ pa pp od].
-  unfold body_settled, prep_body, prep_body_gen, detect_stage. simp_r. cbn [orb].
-  destruct (payload_forbid c m) eqn:Ef; simp_r.
-  { rewrite Ef. simp_r. repeat split. }
-  destruct (nonempty (c_form c) && (at_ <=? 0)%Z); simp_r;
-  [set (F := add_values (c_form c) f)|set (F := f)].
-  all: destruct (nonempty od) eqn:Eod; simp_r;
-       [rewrite Ef, Eod; simp_r; repeat split; apply hget_hset_same|].
-  all: destruct (nonempty F) eqn:Efm; simp_r;
-       [rewrite Ef, Eod, Efm; simp_r; repeat split; apply hget_hset_same|].
-  all: destruct bd as [bd|]; simp_r; [|rewrite Ef, Eod, Efm; simp_r; exact I].
-  all: destruct (nonempty (hfirst content_type (c_headers c))) eqn:E1; simp_r;
-       [rewrite Ef, Eod, Efm; simp_r; left; first [reflexivity|exact E1]|].
-  all: destruct (nonempty (hfirst content_type h)) eqn:E2; simp_r; rewrite Ef, Eod, Efm; simp_r;
-       [right; left; first [reflexivity|exact E2]|right; right; apply hget_hset_same].
+  unfold body_settled, prep_body, prep_body_gen. cbn [orb].
+  destruct (payload_forbid c (r_method X)) eqn:Ef.
+  { simp_r. rewrite Ef. repeat split. }
+  cbv zeta.
+  set (s1 := if nonempty (c_form c) && _ then _ else X).
+  assert (Hm1 : r_method s1 = r_method X) by (unfold s1; destruct (nonempty (c_form c) && _); reflexivity).
+  clearbody s1.
+  destruct (nonempty (r_ordered s1)) eqn:Eod.
+  { simp_r. rewrite Hm1, Ef, Eod. repeat split. apply hget_hset_same. }
+  destruct (nonempty (r_form s1)) eqn:Efm.
+  { simp_r. rewrite Hm1, Ef, Eod, Efm. repeat split. apply hget_hset_same. }
+  pose proof (frame2_tail s1) as Hf2. unfold frame2 in Hf2.
+  injection Hf2 as Ha Hb Hc.
+  rewrite Ha, Hb, Hc, Hm1, Ef, Eod, Efm. apply tail_idem.
 Qed.
 
 Lemma body_settled_fixed Y b :
   (1 <= b)%Z -> body_settled Y -> seqv (prep_body detect c (set_attempt Y b)) (set_attempt Y b).
 Proof.
   intros Hb. assert (E1 : (b <=? 0)%Z = false) by lia.
-  destruct Y as [m rq h ck f q bd gb rd un at_ pa pp od].
-  unfold body_settled, prep_body, prep_body_gen, detect_stage. simp_r. cbn [orb]. rewrite E1, andb_false_r.
-  destruct (payload_forbid c m) eqn:Ef; simp_r.
-  { intros (H1 & H2). subst bd gb. apply seqv_refl. }
-  destruct (nonempty od) eqn:Eod; simp_r.
-  { intros (H1 & H2 & H3). subst bd gb.
-    unfold seqv. simp_r. repeat (split; [reflexivity|]). apply hset_known_heq, H3. }
-  destruct (nonempty f) eqn:Efm; simp_r.
-  { intros (H1 & H2 & H3). subst bd gb.
-    unfold seqv. simp_r. repeat (split; [reflexivity|]). apply hset_known_heq, H3. }
-  destruct bd as [bd|]; [|intros _; apply seqv_refl].
-  destruct (nonempty (hfirst content_type (c_headers c))) eqn:E2; [intros _; apply seqv_refl|].
-  destruct (nonempty (hfirst content_type h)) eqn:E3; [intros _; apply seqv_refl|].
-  intros [H|[H|H]]; [discriminate H|discriminate H|].
-  unfold seqv. simp_r. repeat (split; [reflexivity|]). apply hset_known_heq, H.
+  unfold body_settled, prep_body, prep_body_gen. simp_r. cbn [orb]. rewrite E1, andb_false_r. simp_r.
+  destruct (payload_forbid c (r_method Y)) eqn:Ef.
+  { intros (H1 & H2 & H3). unfold seqv. simp_r. rewrite H1, H2, H3.
+    repeat (split; [reflexivity|]). apply heq_refl. }
+  destruct (nonempty (r_ordered Y)) eqn:Eod.
+  { intros (H1 & H2 & H3). unfold seqv. simp_r. rewrite H1, H2.
+    repeat (split; [reflexivity|]). apply hset_known_heq, H3. }
+  destruct (nonempty (r_form Y)) eqn:Efm.
+  { intros (H1 & H2 & H3). unfold seqv. simp_r. rewrite H1, H2.
+    repeat (split; [reflexivity|]). apply hset_known_heq, H3. }
+  intros H. rewrite marshal_stage_set_attempt, detect_stage_set_attempt.
+  apply seqv_set_attempt0, H.
 Qed.
 
 (* the body stage applied to its own output (any positive attempt number) changes nothing *)
